@@ -126,6 +126,8 @@ func runC11(c *Ctx) {
 
 	ruleLoadedPackageReadOnly(c, "C11.8")
 	rulePackageLoadedPerFile(c, "C11.9")
+	ruleNoCrossFilePositionOrder(c, "C11.11")
+	ruleGenerateOncePerFile(c, "C11.12")
 	ruleOutputOpenedLast(c, "C11.10")
 
 	// ---- C11.4 deterministic field order
